@@ -1724,14 +1724,16 @@ def step_inv(h):
             Implies_(ne(h.states.state, IDLE), step_is(h, STEP.WAITING_FOR_METADATA, STEP.WAITING_FOR_MISSING_DATA, STEP.SENDING_EOF_ACK_PDU,
                                                       STEP.TRANSFER_COMPLETION, STEP.SENDING_FINISHED_PDU, STEP.WAITING_FOR_FINISHED_ACK)))),
         Implies_(And_(step_is(h, STEP.SENDING_EOF_ACK_PDU), B(ap.metadata_missing)), And_(
-            ne(p.completion_disposition, CANCELED), eq(p.finished_params.delivery_code, DeliveryCode.DATA_INCOMPLETE))),
+            ne(p.completion_disposition, CANCELED), eq(p.finished_params.delivery_code, DeliveryCode.DATA_INCOMPLETE),
+            opt(fp.file_size_eof, lambda s: fp.progress == s, False))),
         Implies_(Not_(B(ap.deferred_lost_segment_detection_active)), Implies_(step_is(
             h, STEP.RECEIVING_FILE_DATA, STEP.SENDING_EOF_ACK_PDU, STEP.WAITING_FOR_METADATA), isnone(ap.procedure_timer))),
         Implies_(step_is(h, STEP.WAITING_FOR_METADATA), And_(
             eq(m, ACK), B(ap.metadata_missing), ne(p.completion_disposition, CANCELED),
             eq(p.finished_params.delivery_code, DeliveryCode.DATA_INCOMPLETE),
             Implies_(Not_(B(ap.deferred_lost_segment_detection_active)), And_(isnone(fp.file_size_eof), ap.last_end_offset <= fp.progress)),
-            Implies_(B(ap.deferred_lost_segment_detection_active), opt(fp.file_size_eof, lambda s: ap.last_end_offset == s, False)))),
+            Implies_(B(ap.deferred_lost_segment_detection_active), opt(fp.file_size_eof, lambda s: And_(
+                ap.last_end_offset == s, fp.progress == s), False)))),
         Implies_(step_is(h, STEP.WAITING_FOR_MISSING_DATA), And_(eq(m, ACK), B(ap.deferred_lost_segment_detection_active),
                                                                    Not_(B(ap.metadata_missing)))),
         Implies_(step_is(h, STEP.RECEIVING_FILE_DATA, STEP.RECV_FILE_DATA_WITH_CHECK_LIMIT_HANDLING), Not_(B(ap.metadata_missing))),
